@@ -885,10 +885,10 @@ Proof.
   assert (H9' : 9 <= lenN bytes) by (unfold lenN; lia). specialize (Hnp H9').
   assert (Hnf : load_frame bytes <> PErrFrameSize /\ load_frame bytes <> PNotOneFrame).
   { unfold load_frame. rewrite E. split; destruct (kind_new (h_kind h)); cbn [h_sid];
-      try (destruct (_ =? 0)); try discriminate;
+      try (destruct (_ =? 0)); cbn [negb]; try discriminate;
       match goal with |- lift _ _ ?r <> _ => destruct r; discriminate end. }
   destruct Hnf as [Hn1 Hn2].
-  destruct (load_frame bytes) as [l|k sid e| | | |]; try congruence; try exact I.
+  destruct (load_frame bytes) as [l|k sid e| | | | |]; try congruence; try exact I.
   - destruct l as [f|sid eoh frag|]; [| |exact I].
     + destruct (is_header_frame f); [|exact I].
       destruct (hp_load ops mh (hp_begin ops hs) (frame_block f)) as [[oc rest] hs2].
